@@ -1,2 +1,7 @@
 import NetqasmVerif.Model.Basic
 import NetqasmVerif.Model.Codec
+import NetqasmVerif.Model.Cyc
+import NetqasmVerif.Model.Gates
+import NetqasmVerif.Model.NvDecomp
+import NetqasmVerif.Model.Pauli
+import NetqasmVerif.Model.Toolbox
